@@ -58,6 +58,17 @@ def judge_c08(case, log):
                 out.append(f"none-iff-empty: series {sid} tick {T}: emitted {'None' if val is None else 'a value'} while "
                            f"{len(expected)} buffered samples are stamped in ({lo}, {T}]")
                 break
+    # no sink fails and no source stops in these scenarios: resample() must never raise; if it does, the series
+    # concerned got nothing for that tick (and a supervisor would drop it for good)
+    for e in log:
+        if e[0] == "raised":
+            out.append(f"error: resample() raised ResamplingError for series {e[1]} at +{e[2]} us: nothing was emitted for that tick")
+            break
+        # (IndexError = add_timeseries during an in-flight gather: every sink of that tick had already been
+        #  served; it concerns the loop, see C07, not what a source is handed)
+        if e[0] == "crash" and e[1] != "IndexError":
+            out.append(f"error: resample() died with {e[1]} at +{e[2]} us")
+            break
     return [{"what": w, "finding": None} for w in out]
 
 
